@@ -232,7 +232,7 @@ fn actual_accessors(n: &SyntaxNode) -> Vec<(&'static str, Vec<SyntaxNode>)> {
         SyntaxKind::NamedArgValue => { let x = cast!(NamedArgValue); vec![("name", opt(x.name())), ("value", opt(x.value()))] }
         SyntaxKind::Body => { let x = cast!(Body); vec![("items", many(x.items()))] }
         SyntaxKind::FieldDef => { let x = cast!(FieldDef); vec![("type", opt(x.r#type())), ("name", opt(x.name())), ("value", opt(x.value()))] }
-        SyntaxKind::FieldLet => { let x = cast!(FieldLet); vec![("name", opt(x.name())), ("value", opt(x.value()))] }
+        SyntaxKind::FieldLet => { let x = cast!(FieldLet); vec![("name", opt(x.name())), ("range_list", opt(x.range_list())), ("value", opt(x.value()))] }
         SyntaxKind::BitsType => { let x = cast!(BitsType); vec![("length", opt(x.length()))] }
         SyntaxKind::ListType => { let x = cast!(ListType); vec![("inner_type", opt(x.inner_type()))] }
         SyntaxKind::ClassId => { let x = cast!(ClassId); vec![("name", opt(x.name()))] }
@@ -305,7 +305,7 @@ fn expected_accessors(t: &T) -> Vec<(&'static str, Vec<&T>)> {
         "NamedArgValue" => vec![("name", nth(t, &["Value"], 0)), ("value", nth(t, &["Value"], 1))],
         "Body" => vec![("items", kids(t, &BODYITEMS))],
         "FieldDef" => vec![("type", first(t, &TYPES)), ("name", first(t, &["Identifier"])), ("value", first(t, &["Value"]))],
-        "FieldLet" => vec![("name", first(t, &["Identifier"])), ("value", first(t, &["Value"]))],
+        "FieldLet" => vec![("name", first(t, &["Identifier"])), ("range_list", first(t, &["RangeList"])), ("value", first(t, &["Value"]))],
         "BitsType" => vec![("length", first(t, &["Integer"]))],
         "ListType" => vec![("inner_type", first(t, &TYPES))],
         "ClassId" => vec![("name", first(t, &["Identifier"]))],
